@@ -74,6 +74,13 @@ def run(run):
                         files["dup%d_%s.cql" % (j, rng.choice(["a", "é", "x y"]))] = src_text
                         files["dup%d_b.cql" % j] = src_text
                         stats["duplicate_content_pairs"] += 1
+                if case == 1 or (not quick and case % 9 == 4):
+                    # a ruleset whose bundle is larger than a megabyte: one long rule text, and texts that grow when
+                    # they are written as JSON (every < > & quote and line break takes two to six bytes)
+                    files["big_rule.cql"] = "/**\n * @id big/one\n */\nFROM method_declaration AS md\nWHERE " + " || ".join('md.getName() == "name%06d"' % j for j in range(32000)) + "\nSELECT md\n"
+                    for j in range(4):
+                        files["escapes%d.cql" % j] = ("<&>\"\\\n" * 9000) + str(j)
+                    stats["bundles_over_a_megabyte"] += 1
                 for fn, text in files.items():
                     with open(os.path.join(rdir, fn), "wb") as f:
                         f.write(text.encode("utf-8"))
